@@ -448,7 +448,7 @@ func (i *ICMPv6Redirect) SerializeTo(b gopacket.SerializeBuffer, opts gopacket.S
 		return err
 	}
 
-	copy(buf, lotsOfZeros[:4])
+	copy(buf, lotsOfZeros[:36])
 	copy(buf[4:], i.TargetAddress)
 	copy(buf[20:], i.DestinationAddress)
 	return nil
